@@ -838,9 +838,24 @@ Proof.
           { rewrite zlen_app. lia. }
           { rewrite zdrop_app. rewrite (zdrop_all _ n (c_in _)) by lia. reflexivity. } }
   chain_next.
-  { apply U_hr_consume; auto; cbn [c_set_in c_set_buf c_in c_buf app].
-    - apply is_prefix_refl.
-    - rewrite zdrop_all by lia. reflexivity. }
+  { (* writeto: everything / part of the ring / the ring and part of the read buffer *)
+    set (lim := match args with AInt n :: _ => n | _ => -1 end).
+    pose proof (zlen_nonneg _ (c_in (wc w cid))) as P1. pose proof (zlen_nonneg _ (c_buf (wc w cid))) as P2.
+    destruct (_ || _) eqn:Eall.
+    - apply U_hr_consume; auto; cbn [c_set_in c_set_buf c_in c_buf app].
+      + apply is_prefix_refl.
+      + rewrite zdrop_all by lia. reflexivity.
+    - destruct (lim <? zlen (c_in (wc w cid))) eqn:Elt.
+      + assert (El : zlen (ztake lim (c_in (wc w cid))) = lim) by (rewrite zlen_ztake; lia).
+        apply U_hr_consume; auto; cbn [c_set_in c_set_buf c_in c_buf app].
+        * rewrite (read_take_in lim _ (c_buf (wc w cid)) El). apply is_prefix_ztake.
+        * rewrite El. apply read_drop_in. exact El.
+      + assert (Et : c_in (wc w cid) ++ ztake (lim - zlen (c_in (wc w cid))) (c_buf (wc w cid)) =
+                     ztake lim (c_in (wc w cid) ++ c_buf (wc w cid))).
+        { rewrite ztake_app, (ztake_all _ lim (c_in _)) by lia. reflexivity. }
+        apply U_hr_consume; auto; cbn [c_set_in c_set_buf c_in c_buf app].
+        * rewrite Et. apply is_prefix_ztake.
+        * rewrite Et, zdrop_zlen_ztake, zdrop_app, (zdrop_all _ lim (c_in _)) by lia. reflexivity. }
   chain_next.
   { apply U_hr_inbuf. exact HI. }
   chain_next.
